@@ -205,6 +205,10 @@ def harnesses(tier):
                 add(h_errors, 'errors', dict(length_error=le, missing_error=me, case=case), 'concrete submission, credits in [0,1]')
     for form in ('string-answers', 'expect-tuple-of-strings', 'inferred-expect'):
         add(h_inferred, 'inferred', dict(form=form), 'credits in (0,1)')
+    from vchecks.c06 import h_step6, h_step1
+    for nn in (2, 3):
+        hs.append(Harness(pname('solver_step6', n=nn), h_step6, (nn,), FUNCS, 'assignment solver step 6 from an arbitrary pre-state, n=%d' % nn, STUBS))
+        hs.append(Harness(pname('solver_step1', n=nn), h_step1, (nn,), FUNCS, 'assignment solver step 1, n=%d' % nn, STUBS))
     if tier == 'thorough':
         for partial in (True, False):
             add(h_slg, 'slg', dict(ordered=False, partial=partial, n_exp=3, n_stu=3, interior=False, delim=',', perm=False), 'credits in [0,1]', max_paths=200000)
